@@ -131,6 +131,9 @@ func (p *parser) parseFuncSignatures(funcs []int) {
 	for _, i := range funcs {
 		p.advanceTo(i)
 		fd := p.parseFuncDefSignature()
+		if fd == nil {
+			continue // invalid signature, error already reported
+		}
 		if p.builtins.Globals[fd.Name] != nil {
 			// We still go on to add `fd` to the funcs map so that the
 			// function can be parsed correctly even though it has an invalid name.
@@ -209,6 +212,11 @@ func (p *parser) parseFunc() Node {
 
 	p.advancePastNL() // advance past signature, already parsed into p.funcs earlier
 	fd := p.funcs[funcName]
+	if fd == nil {
+		// The signature was rejected by parseFuncSignatures. Parse the
+		// body anyway so that it is skipped and its errors are reported.
+		fd = &FuncDefStmt{token: tok, ReturnType: NONE_TYPE}
+	}
 	p.scope = newScopeWithReturnType(p.scope, fd, fd.ReturnType)
 	defer p.popScope()
 	p.addParamsToScope(fd)
